@@ -67,6 +67,9 @@ def cases(tier, seed):
         for cls in ("gauss", "hermitian", "int") if tier == "quick" else ("gauss", "hermitian", "int", "near_hessenberg", "sparse", "upper_tri"):
             out.append({"kind": "h", "cls": cls, "idx": idx, "seed": seed, "maxn": maxn, "n": n})
             idx += 1
+    for r in range(12 if tier == "quick" else 80):
+        out.append({"kind": "h", "cls": ["gauss", "int", "near_hessenberg"][r % 3], "idx": idx, "seed": seed, "maxn": maxn, "n": 3 + r % 5, "history": True})
+        idx += 1
     # fixed witness of defect 10.1/C09 (found by the thorough tier): 12 x 12, three non-zero entries of ordinary size
     out.append({"kind": "h", "cls": "sparse", "idx": 3331, "seed": 0, "maxn": 20})
     # exact power-of-two scalings into the range where squares of the entries under- or overflow
@@ -184,6 +187,11 @@ def run_case(spec, ctx, R):
     ctx.distinct(A, nontrivial=n >= 3 and refq.fro(A) > 0)
     if cls == "hessenberg":
         ctx.hit("class:already_hessenberg")
+    if spec.get("history"):
+        for lab, X in gen.history_forms(A):
+            judge(ctx, R, X, "hessenbergize:history:" + lab, [cls, "history"])
+        ctx.hit("history:one_buffer_many_calls")
+        return
     if spec.get("pow2"):
         ctx.hit("scale:pow2_extreme")
         judge(ctx, R, A, "hessenbergize:scaled_2^%d" % spec["pow2"], [cls, "extreme_scale"], pow2=spec["pow2"])
